@@ -138,13 +138,14 @@ def driver_values(fobj):
 
 
 def stem(name, T):
-    """template group of a check box: IRS same-named siblings c1_3[0..4]; NC ...yes/...no pairs"""
-    name = GROUP_ALIAS.get(name, name)
+    """template group of a check box: IRS same-named siblings c1_3[0..4]; NC ...yes/...no pairs and fstat1..5"""
+    if name in GROUP_ALIAS:
+        return GROUP_ALIAS[name]
     m = re.match(r'(.*)\[\d+\]$', name)
     if m:
         sibs = [n for n in T if n.startswith(m.group(1) + '[') and T[n]['kind'] == 'checkButton']
         return m.group(1) if len(sibs) > 1 else None
-    m = re.match(r'(.*?)(?:yes|no)$', name)
+    m = re.match(r'(.*?)(?:yes|no)$', name) or re.match(r'(.*_fstat)\d$', name)
     return m.group(1) if m else T.get(name, {}).get('excl_group')
 
 
